@@ -2,6 +2,7 @@
 from __future__ import annotations
 
 from ..cmdeval import *
+from ..cmdeval import _F
 from ..codec import spec_positions, pos_text
 from ..rt import *
 from ..values import *
@@ -168,6 +169,57 @@ def check(prog, run):
                               file, line, key)
             else:
                 run.ok("other-bits-zero", short, {"case": con.label()})
+    # every CDB the library builds, whatever was built just before it: each class again, right after a predecessor command
+    # from each CDB length group (6 / 10 / 12 / 16 bytes); the predecessors' tables include one that is equal *by value*
+    # to three other classes' tables ({"opcode": [0xFF, 0]})
+    from ..images import same_value
+    I = prog.I
+    mod = prog.module(ENUM_MOD)
+    preds = [("pyscsi.pyscsi.scsi_cdb_testunitready:TestUnitReady", "TEST_UNIT_READY"), ("pyscsi.pyscsi.scsi_cdb_readcapacity10:ReadCapacity10", "READ_CAPACITY_10"),
+             ("pyscsi.pyscsi.scsi_cdb_report_luns:ReportLuns", "REPORT_LUNS"), ("pyscsi.pyscsi.scsi_cdb_read16:Read16", "READ_16")]
+    nhist = 0
+    for key, entry in refcdb.CDB.items():
+        cls = classes[key]
+        short = key.split(":")[1]
+        alone = [c for c in construct_all(prog, key, entry, sets=None) if c.path.returned][:1]
+        if not alone:
+            continue
+        con = alone[0]
+        for pkey, popname in preds:
+            if pkey == key:
+                continue
+            pcls = classes[pkey]
+            pentry = refcdb.CDB[pkey]
+            nhist += 1
+
+            def th(con=con, entry=entry, pcls=pcls, pentry=pentry, popname=popname):
+                pop = mod.env["sbc"].members[popname]
+                pkw = {n: domain_choices(n, d)[0][1]() for n, d in pentry["args"]}
+                I.instantiate(pcls, [pop], pkw, None, _F("predecessor"))
+                kw = {}
+                for (n, d) in entry["args"]:
+                    pick = [c for c in domain_choices(n, d) if c[0] == con.labels[n]][0]
+                    kw[n] = pick[1]()
+                return I.instantiate(con.cls, [con.opcode], kw, None, _F("after predecessor"))
+            for p in I.explore(th, max_paths=64):
+                c = "%s built right after %s" % (short, pkey.split(":")[1])
+                if not p.returned:
+                    ec = p.raised.exc_class()
+                    if ec is not None and ec.name == "MissingBlocksizeException":
+                        continue
+                    run.violation("cdb-independent-of-previous-command", c, "raises %s" % p.raised.describe(), prog.rel(cls.module), None, key)
+                    continue
+                got, want = p.value.attrs.get("_cdb"), con.inst.attrs.get("_cdb")
+                if same_value(got, want):
+                    run.ok("cdb-independent-of-previous-command", c)
+                else:
+                    run.violation("cdb-independent-of-previous-command", c,
+                                  "%s: the CDB is %r (%s bytes) instead of the %s bytes it has when built alone"
+                                  % (c, got, len(got.cells) if isinstance(got, Buf) and got.cells is not None else "?",
+                                     len(want.cells) if isinstance(want, Buf) and want.cells is not None else "?"),
+                                  prog.rel(cls.module), None, key)
+                break
+    run.count("history_constructions", nhist)
     run.count("classes", nclass)
     run.count("constructions", ncons)
     run.count("field_comparisons", nfields)
